@@ -78,6 +78,9 @@ type Proj struct {
 	Args    []string
 	FlagVal string
 	Pause   bool // module top-level code calls v.pause
+	// Ignore is the project's ignore list (dawn.toml): packages are not loaded from ignored paths, but targets of other
+	// packages may still list files and directories below them as sources
+	Ignore []string
 }
 
 func (p *Proj) file(id string) *File { return p.Files[id] }
@@ -330,7 +333,11 @@ func (p *Proj) WriteFile(root, id string) {
 // WriteAll writes the whole tree (build files, helper modules, sources, dawn.toml).
 func (p *Proj) WriteAll(root string) {
 	os.MkdirAll(root, 0o755)
-	os.WriteFile(filepath.Join(root, "dawn.toml"), []byte("name = \"gen\"\n"), 0o644)
+	toml := "name = \"gen\"\n"
+	if len(p.Ignore) > 0 {
+		toml += "ignore = " + quoteList(p.Ignore) + "\n"
+	}
+	os.WriteFile(filepath.Join(root, "dawn.toml"), []byte(toml), 0o644)
 	for _, id := range p.Order {
 		p.WriteFile(root, id)
 	}
@@ -508,6 +515,15 @@ func (g *Gen) Project() *Proj {
 			}
 		}
 	}
+	// a vendored tree on the ignore list whose files some root-package targets use as sources
+	vendored := r.IntN(3) == 0
+	if vendored {
+		p.Ignore = []string{"vendor", "vendor/**"}
+		p.Srcs["vendor/lib.txt"] = "vendored library v0\n"
+		p.Srcs["vendor/deep/x.txt"] = "vendored deep file\n"
+		// a package below the ignored path: it must not be loaded (it would not even parse)
+		p.Srcs["vendor/BUILD.dawn"] = "this is not a build file (\n"
+	}
 	// targets, in an order that keeps the dependency graph acyclic
 	ntg := 3 + r.IntN(8)
 	var all []*Tgt
@@ -552,6 +568,9 @@ func (g *Gen) Project() *Proj {
 		sort.Strings(t.Sources)
 		if _, ok := p.Srcs[filepath.Join(pk, "dir0", "a.txt")]; ok && r.IntN(2) == 0 {
 			t.Sources = append(t.Sources, "dir0")
+		}
+		if vendored && pk == "" && r.IntN(2) == 0 {
+			t.Sources = append(t.Sources, []string{"vendor/lib.txt", "vendor", "vendor/deep/x.txt"}[r.IntN(3)])
 		}
 		// a source from another package
 		if len(pkgs) > 1 && r.IntN(4) == 0 {
